@@ -495,6 +495,20 @@ pub fn run(tier: Tier) -> Report {
             })
             .collect();
         rep.set("violations_before_reduction", total);
+        // a root-cause clause with MORE failing cases than listed is a new violation of its own
+        for (clause, n) in &counts {
+            let n = n.as_u64().unwrap_or(0);
+            if let Some(ceiling) = crate::report::clause_ceiling("C30", tier, clause) {
+                if n > ceiling {
+                    rep.violation(Violation::new(
+                        "C30.more-failing-cases-than-listed",
+                        json!({"root_cause_clause": clause, "tier": tier.name(), "failing_cases": n}),
+                        format!("at most {ceiling} accepted query texts fail to round-trip through this (listed) root cause"),
+                        format!("{n} fail"),
+                    ));
+                }
+            }
+        }
         rep.set("violating_cases_by_root_cause", J::Object(counts));
         for v in all {
             let q = v.witness["q"].as_str().unwrap_or("").to_string();
